@@ -39,7 +39,7 @@ func TestCheck(t *testing.T) {
 		t.Skip("child process")
 	}
 	run := ev.Start(t, "C11", "exploration")
-	nRuns := run.Pick(60, 500)
+	nRuns := run.Pick(60, 1500)
 	nChild := (nRuns + runsPerChild - 1) / runsPerChild
 	// the race detector multiplies CPU cost: few children at a time, each saturating cores
 	ev.Parallel(nChild, 3, func(b int) {
